@@ -83,7 +83,7 @@ inline Pattern gen_pattern(Tape & t, const DType & dt, const std::vector<std::st
     p.seed = (uint64_t) t.raw() << 1;
     if (p.kind == "const") p.p1 = t.range(0, 255);
     else if (p.kind == "blocks") p.p1 = block_hint ? (int64_t) block_hint * t.range(1, 2) : 64;
-    else if (p.kind == "spike") p.p1 = block_hint ? (int64_t) block_hint : 64;
+    else if (p.kind == "spike" || p.kind == "spike2") p.p1 = block_hint ? (int64_t) block_hint : 64;
     (void) dt;
     return p;
 }
@@ -155,7 +155,7 @@ inline Program gen_general(Tape & t, int size, const GenOpts & go) {
         if (pl.dt->bits >= 32) cap /= 2;
         if (pl.total > cap) pl.total = cap;
         if (!pl.fsr) pl.total = 0;
-        pl.pat = gen_pattern(t, *pl.dt, {"random", "ramp", "blocks", "blocks", "const", "small", "alt"}, pl.sd.spd);
+        pl.pat = gen_pattern(t, *pl.dt, {"random", "ramp", "blocks", "blocks", "const", "small", "alt", "spike2"}, pl.sd.spd);
         pl.anno_ts = pl.first; pl.utc_id = pl.first - t.range(0, 100); pl.utc = t.range(0, 1LL << 40);
         pl.defined = false;
         plans.push_back(pl);
